@@ -7,17 +7,27 @@ Every method of `Pipeline` takes the lock once; what happens under one lock is o
 * `insert_node`  — read `next_id`, bump it, `nodes.insert(id, node)` (a `HashMap` insert: replaces an equal key);
 * `connect`      — `edges.push((from,to))`;
 * `snapshot`     — clone `nodes` and `edges`;
-* `record_metrics_start/end` — lock, touch only the metrics collector (no effect on the graph).
+* `record_metrics_start/end` — lock, touch only the metrics collector (no effect on the graph);
+* `set_metrics` / `take_metrics` — lock, `metrics = Some(..)` / `metrics.take()` (no effect on the graph).
 
 Builders are SEQUENCES of such steps (the code between two locks touches only thread-local data):
 
 * `from_vec`                        = `[insert]`                                 (helpers/stdlib.rs)
 * `apply_transform` / every `map`…  = `[insert; connect parent new]`              (collection.rs, helpers/*.rs)
+  — also the barrier builders `group_by_key` (keyed.rs), `combine_values`, `combine_values_lifted`
+  (combine.rs), `combine_globally` (combine_global.rs): one `insert_node`, one `connect`, nothing else
 * `join_*`                          = `[snapshot(+chain_from left); snapshot(+chain_from right);
                                         insert dummy source; insert CoGroup{left_chain,right_chain}; connect dummy cogroup]`
                                                                                   (helpers/joins.rs)
 * `collect_*` → `Runner::run_collect` = `[metrics start; snapshot(+backwalk_linear); ⟨execute outside the lock⟩; metrics end]`
                                                                                   (runner.rs, planner.rs::build_plan)
+
+**User code.** No builder calls a user function (closure / `CombineFn`): it only stores it in the node it
+inserts. User functions run when a chain is EXECUTED, i.e. inside `run_collect` between its `build_plan` and
+its `record_metrics_end`, outside the lock, on thread-local data (the cloned snapshot) — so any point of that
+interval is a valid linearisation point; the model attributes the run to the collect's last step. Each
+thread carries the explicit trace `calls` of the chains whose user functions it has run; every step except a
+collect's last one leaves every thread's trace unchanged (`Props/C08.lean: build_step_runs_no_user_code`).
 
 A thread is a program (list of operations); its program counter `PC` says which atomic step of the current
 operation comes next. A history is a *schedule*: a list of thread indices; `run` executes it. A handle is only
@@ -112,54 +122,70 @@ inductive Ref where
   | mine (k : Nat)
 deriving Repr, DecidableEq
 
+/-- `sig` of a derive: `none` = applicable to a collection of any element type, the result has the parent's
+    type class (`map`/`filter`); `some (need, out)` = applicable only to a collection of class `need`, the
+    result has class `out` (`group_by_key`: (K,V) → (K,Vec V); `combine_values`: (K,V) → (K,O); …).
+    Classes are only used to resolve handle arguments the way a typed program can (`resolveCls`). -/
 inductive Op (N : Type) where
-  | source (n : N)                -- `from_vec`
-  | derive (p : Ref) (n : N)      -- `map`/`filter`/… on an existing collection
-  | join (l r : Ref)              -- `join_inner` of two existing collections
-  | collect (x : Ref)             -- `collect_seq` / `collect_par`
+  | source (n : N)                                   -- `from_vec`
+  | derive (p : Ref) (sig : Option (Nat × Nat)) (n : N) -- `map`/`filter`/`group_by_key`/`combine_*` on an existing collection
+  | join (l r : Ref) (tag : Nat)                     -- `join_inner`/`_left`/`_right`/`_full` (`tag`) of two existing collections
+  | collect (x : Ref)                                -- `collect_seq` / `collect_par`
+  | setMetrics                                       -- `Pipeline::set_metrics`
+  | takeMetrics                                      -- `Pipeline::take_metrics`
 
-/-- what is used to build a join: the dummy source node and the `CoGroup` node holding both chains -/
+/-- what is used to build a join: the dummy source node and the `CoGroup` node (of join kind `tag`) holding
+    both chains -/
 structure Kit (N : Type) where
   dummy : N
-  cogroup : List N → List N → N
+  cogroup : Nat → List N → List N → N
 
 /-- the next atomic step of the operation in progress (thread-local variables are the arguments) -/
 inductive PC (N : Type) where
   | idle                                         -- between operations (next: `begin`)
   | srcIns (n : N)                               -- from_vec: about to `insert_node`
-  | drvIns (p : Nat) (n : N)                     -- derive: about to `insert_node`
-  | drvCon (p m : Nat)                           -- derive: about to `connect(p, m)`
-  | joinSnapL (l r : Nat)                        -- join: about to `chain_from(left)`
-  | joinSnapR (l r : Nat) (lc : List N)          -- join: about to `chain_from(right)`
-  | joinInsD (lc rc : List N)                    -- join: about to insert the dummy source
-  | joinInsG (d : Nat) (lc rc : List N)          -- join: about to insert the CoGroup node
+  | drvIns (p cls : Nat) (n : N)                 -- derive: about to `insert_node` (`cls`: class of the result)
+  | drvCon (p m cls : Nat)                       -- derive: about to `connect(p, m)`
+  | joinSnapL (l r tag : Nat)                    -- join: about to `chain_from(left)`
+  | joinSnapR (l r tag : Nat) (lc : List N)      -- join: about to `chain_from(right)`
+  | joinInsD (tag : Nat) (lc rc : List N)        -- join: about to insert the dummy source
+  | joinInsG (d tag : Nat) (lc rc : List N)      -- join: about to insert the CoGroup node
   | joinCon (d g : Nat)                          -- join: about to `connect(dummy, cogroup)`
   | colStart (x : Nat)                           -- collect: about to `record_metrics_start`
   | colSnap (x : Nat)                            -- collect: about to `build_plan` (snapshot + back-walk)
-  | colEnd (x : Nat) (ch : Option (List N))      -- collect: executed outside the lock; about to `record_metrics_end`
+  | colEnd (x : Nat) (ch : Option (List N))      -- collect: executes outside the lock; about to `record_metrics_end`
+  | metSet                                       -- about to `set_metrics`
+  | metTake                                      -- about to `take_metrics`
 
 inductive Outcome (N : Type) where
   | built (id : Nat)
   | collected (x : Nat) (ch : Option (List N))   -- the chain the run executed (`none` = planner error)
   | skipped                                      -- a handle argument could not be resolved (empty pool)
   | panicked                                     -- `chain_from(..).expect(..)` failed
+  | metricsSet                                   -- `set_metrics` returned
+  | metricsTaken (had : Bool)                    -- `take_metrics` returned `Some(..)` / `None`
 
 structure Thread (N : Type) where
   todo : List (Op N)
   pc : PC N
   own : List Nat
   outs : List (Outcome N)
+  calls : List (List N)                     -- trace of user-code runs: the chains whose user functions this thread has executed
 
 structure Cfg (N : Type) where
   g : PState N
+  metrics : Bool                            -- `PipelineInner.metrics.is_some()`
   pool : List Nat                           -- published handles, in publication order
-  jpool : List Nat                          -- those of them that are join results or derived from one (element type `(K,(V,W))`)
+  cls : List (Nat × Nat)                    -- element-type class of each published handle (0 = `(K,V)`, 1 = join result, 2 = grouped)
   born : List (Nat × Option (List N))       -- ghost: the lineage of each handle at the moment it was published
   threads : List (Thread N)
 
 def Cfg.init (progs : List (List (Op N))) : Cfg N :=
-  { g := PState.init, pool := [], jpool := [], born := [],
-    threads := progs.map (fun p => { todo := p, pc := .idle, own := [], outs := [] }) }
+  { g := PState.init, metrics := false, pool := [], cls := [], born := [],
+    threads := progs.map (fun p => { todo := p, pc := .idle, own := [], outs := [], calls := [] }) }
+
+/-- all user-code runs so far, thread by thread -/
+def Cfg.calls (c : Cfg N) : List (List N) := c.threads.flatMap Thread.calls
 
 def pick (l : List Nat) (k : Nat) : Option Nat :=
   if l.length = 0 then none else l[k % l.length]?
@@ -171,14 +197,19 @@ def resolve (pool own : List Nat) : Ref → Option Nat
     | some x => some x
     | none => pick pool.reverse k
 
-/-- join arguments are resolved among the handles that are not join results (element type `(K,V)`) -/
-def resolveKV (pool jpool own : List Nat) (r : Ref) : Option Nat :=
-  resolve (pool.filter (fun x => !jpool.contains x)) (own.filter (fun x => !jpool.contains x)) r
+def classOf (cls : List (Nat × Nat)) (x : Nat) : Nat :=
+  match cls.find? (fun p => p.1 == x) with
+  | some p => p.2
+  | none => 0
+
+/-- typed arguments (join operands, `group_by_key`, `combine_*`) are resolved among the handles of class `k` -/
+def resolveCls (pool : List Nat) (cls : List (Nat × Nat)) (own : List Nat) (k : Nat) (r : Ref) : Option Nat :=
+  resolve (pool.filter (fun x => classOf cls x == k)) (own.filter (fun x => classOf cls x == k)) r
 
 /-- the builder returns: the handle becomes usable by everybody (ghost: remember its lineage now) -/
-def publish (c : Cfg N) (x : Nat) (isJoin : Bool) : Cfg N :=
+def publish (c : Cfg N) (x : Nat) (k : Nat) : Cfg N :=
   { c with pool := c.pool ++ [x],
-           jpool := if isJoin then c.jpool ++ [x] else c.jpool,
+           cls := c.cls ++ [(x, k)],
            born := c.born ++ [(x, backwalk c.g x)] }
 
 def Thread.finish (th : Thread N) (o : Outcome N) : Thread N :=
@@ -192,18 +223,24 @@ def beginOp (c : Cfg N) (th : Thread N) (op : Op N) (rest : List (Op N)) : Threa
   let th := { th with todo := rest }
   match op with
   | .source n => { th with pc := .srcIns n }
-  | .derive p n =>
+  | .derive p none n =>
     match resolve c.pool th.own p with
-    | some x => { th with pc := .drvIns x n }
+    | some x => { th with pc := .drvIns x (classOf c.cls x) n }
     | none => th.finish .skipped
-  | .join l r =>
-    match resolveKV c.pool c.jpool th.own l, resolveKV c.pool c.jpool th.own r with
-    | some a, some b => { th with pc := .joinSnapL a b }
+  | .derive p (some sg) n =>
+    match resolveCls c.pool c.cls th.own sg.1 p with
+    | some x => { th with pc := .drvIns x sg.2 n }
+    | none => th.finish .skipped
+  | .join l r tag =>
+    match resolveCls c.pool c.cls th.own 0 l, resolveCls c.pool c.cls th.own 0 r with
+    | some a, some b => { th with pc := .joinSnapL a b tag }
     | _, _ => th.finish .skipped
   | .collect x =>
     match resolve c.pool th.own x with
     | some a => { th with pc := .colStart a }
     | none => th.finish .skipped
+  | .setMetrics => { th with pc := .metSet }
+  | .takeMetrics => { th with pc := .metTake }
 
 /-- one atomic step of thread `th` in configuration `c` (the `threads` field is updated by `step`) -/
 def stepTh (kit : Kit N) (c : Cfg N) (th : Thread N) : Cfg N × Thread N :=
@@ -214,31 +251,36 @@ def stepTh (kit : Kit N) (c : Cfg N) (th : Thread N) : Cfg N × Thread N :=
     | op :: rest => (c, beginOp c th op rest)
   | .srcIns n =>
     let r := insertNode c.g n
-    (publish { c with g := r.1 } r.2 false, th.finishBuilt r.2)
-  | .drvIns p n =>
+    (publish { c with g := r.1 } r.2 0, th.finishBuilt r.2)
+  | .drvIns p k n =>
     let r := insertNode c.g n
-    ({ c with g := r.1 }, { th with pc := .drvCon p r.2 })
-  | .drvCon p m =>
-    (publish { c with g := connect c.g p m } m (c.jpool.contains p), th.finishBuilt m)
-  | .joinSnapL l r =>
+    ({ c with g := r.1 }, { th with pc := .drvCon p r.2 k })
+  | .drvCon p m k =>
+    (publish { c with g := connect c.g p m } m k, th.finishBuilt m)
+  | .joinSnapL l r tag =>
     match backwalk c.g l with
-    | some lc => (c, { th with pc := .joinSnapR l r lc })
+    | some lc => (c, { th with pc := .joinSnapR l r tag lc })
     | none => (c, th.finish .panicked)
-  | .joinSnapR _ r lc =>
+  | .joinSnapR _ r tag lc =>
     match backwalk c.g r with
-    | some rc => (c, { th with pc := .joinInsD lc rc })
+    | some rc => (c, { th with pc := .joinInsD tag lc rc })
     | none => (c, th.finish .panicked)
-  | .joinInsD lc rc =>
+  | .joinInsD tag lc rc =>
     let r := insertNode c.g kit.dummy
-    ({ c with g := r.1 }, { th with pc := .joinInsG r.2 lc rc })
-  | .joinInsG d lc rc =>
-    let r := insertNode c.g (kit.cogroup lc rc)
+    ({ c with g := r.1 }, { th with pc := .joinInsG r.2 tag lc rc })
+  | .joinInsG d tag lc rc =>
+    let r := insertNode c.g (kit.cogroup tag lc rc)
     ({ c with g := r.1 }, { th with pc := .joinCon d r.2 })
   | .joinCon d g =>
-    (publish { c with g := connect c.g d g } g true, th.finishBuilt g)
+    (publish { c with g := connect c.g d g } g 1, th.finishBuilt g)
   | .colStart x => (c, { th with pc := .colSnap x })
   | .colSnap x => (c, { th with pc := .colEnd x (backwalk c.g x) })
-  | .colEnd x ch => (c, th.finish (.collected x ch))
+  | .colEnd x ch =>
+    -- the run (`exec_seq`/`exec_par` on the planned chain) happened since the snapshot: the ONLY step that
+    -- extends a trace of user-code runs
+    (c, { th.finish (.collected x ch) with calls := th.calls ++ ch.toList })
+  | .metSet => ({ c with metrics := true }, th.finish .metricsSet)
+  | .metTake => ({ c with metrics := false }, th.finish (.metricsTaken c.metrics))
 
 /-- thread `i` performs its next atomic step (a finished or non-existent thread: nothing happens) -/
 def step (kit : Kit N) (c : Cfg N) (i : Nat) : Cfg N :=
@@ -259,25 +301,27 @@ def siteOf (th : Thread N) : String :=
     | [] => "done"
     | _ => "begin"
   | .srcIns _ => "insert_node"
-  | .drvIns _ _ => "insert_node"
-  | .drvCon _ _ => "connect"
-  | .joinSnapL _ _ => "snapshot"
-  | .joinSnapR _ _ _ => "snapshot"
-  | .joinInsD _ _ => "insert_node"
-  | .joinInsG _ _ _ => "insert_node"
+  | .drvIns _ _ _ => "insert_node"
+  | .drvCon _ _ _ => "connect"
+  | .joinSnapL _ _ _ => "snapshot"
+  | .joinSnapR _ _ _ _ => "snapshot"
+  | .joinInsD _ _ _ => "insert_node"
+  | .joinInsG _ _ _ _ => "insert_node"
   | .joinCon _ _ => "connect"
   | .colStart _ => "record_metrics_start"
   | .colSnap _ => "snapshot"
   | .colEnd _ _ => "record_metrics_end"
+  | .metSet => "set_metrics"
+  | .metTake => "take_metrics"
 
 /-! ## the abstract view used by the invariant: which ids a thread holds / has reserved -/
 
 /-- handles (already published) the thread is working with -/
 def PC.held : PC N → List Nat
-  | .drvIns p _ => [p]
-  | .drvCon p _ => [p]
-  | .joinSnapL l r => [l, r]
-  | .joinSnapR l r _ => [l, r]
+  | .drvIns p _ _ => [p]
+  | .drvCon p _ _ => [p]
+  | .joinSnapL l r _ => [l, r]
+  | .joinSnapR l r _ _ => [l, r]
   | .colStart x => [x]
   | .colSnap x => [x]
   | .colEnd x _ => [x]
@@ -285,8 +329,8 @@ def PC.held : PC N → List Nat
 
 /-- ids the thread has inserted but whose builder has not returned yet (nobody else knows them) -/
 def PC.resv : PC N → List Nat
-  | .drvCon _ m => [m]
-  | .joinInsG d _ _ => [d]
+  | .drvCon _ m _ => [m]
+  | .joinInsG d _ _ _ => [d]
   | .joinCon d g => [d, g]
   | _ => []
 
